@@ -718,9 +718,40 @@ def check_multiple(s, rows, ref_name, pairs, inputs):
         okc &= s.eq(rows[name].replace("-", ""), text, "content/degapped", f"row {name} of {rows}")
     if not okc:
         return
+    circ = "[ref-gap-inside-deletion]" if _ref_gap_inside_deletion(pairs) else ""
     for name, (rr, orow) in pairs.items():
         got = project(rows, ref_name, name)
-        s.eq(got, (rr, orow), "keeps-pairwise", f"projection of result {rows} onto ({ref_name},{name})")
+        s.eq(got, (rr, orow), "keeps-pairwise" + circ, f"projection of result {rows} onto ({ref_name},{name})")
+
+
+def _ref_gap_inside_deletion(pairs):
+    """some pairwise alignment inserts residues at a reference position that lies strictly inside a run of
+    reference residues deleted in another pairwise alignment (the circumstance of known finding C18-merge)"""
+    ins, dels = {}, {}
+    for name, (rr, orow) in pairs.items():
+        ins[name] = {p for p, ln in gap_slots(rr).items() if ln}
+        runs, p, start = [], 0, None
+        for rc_, oc in zip(rr, orow):
+            if rc_ == "-":
+                continue
+            if oc == "-":
+                if start is None:
+                    start = p
+            elif start is not None:
+                runs.append((start, p))
+                start = None
+            p += 1
+        if start is not None:
+            runs.append((start, p))
+        dels[name] = runs
+    for a in pairs:
+        for b in pairs:
+            if a == b:
+                continue
+            for p in ins[a]:
+                if any(lo < p < hi for lo, hi in dels[b]):
+                    return True
+    return False
 
 
 @st.composite
